@@ -65,6 +65,8 @@ def api_case(draw, tier):
         case["axis"] = draw(ops.AX)
         case["mask"] = draw(ops.MASK)
         case["extra_ids"] = draw(st.integers(0, 2))
+        # a mapping that names no ID of the table at all (or nothing)
+        case["only_unknown"] = draw(st.sampled_from([False] * 5 + [True]))
         case["entries"] = draw(st.lists(
             st.dictionaries(st.sampled_from(KEYS), VALS, max_size=3),
             min_size=10, max_size=10))
@@ -179,11 +181,26 @@ def check_api(case, rec):
         ids = ref.ids(axis)
         mk = ops.mask_for(len(ids), case["mask"])
         chosen = [i for i, k in zip(ids, mk) if k]
+        if case.get("only_unknown"):
+            chosen = []
+            rec.cls("mapping-names-no-table-id")
         chosen += ["unknown-id-%d" % j for j in range(case["extra_ids"])]
         mapping = {i: dict(case["entries"][k % 10])
                    for k, i in enumerate(chosen)}
         arg = deepcopy(mapping)
+        twin = t.copy()
+        was_none = t.metadata(axis=axis) is None
         t.add_metadata(arg, axis=axis)
+        if not any(i in mapping for i in ids):
+            # nothing to add: the table is observably what it was
+            if (t.metadata(axis=axis) is None) != was_none or \
+                    not (t == twin) or (t != twin):
+                raise Violation("noop-add-changed-table", "add_metadata "
+                                "with a mapping naming no ID of the %s axis "
+                                "changed the table: metadata() %r -> %r, "
+                                "== copy-before: %r" %
+                                (axis, "None" if was_none else "present",
+                                 t.metadata(axis=axis), t == twin))
         want = {"observation": ref.obs_md, "sample": ref.samp_md}
         want[axis] = model_add(ref.md(axis), ids, mapping)
         in_both = [i for i in ids if i in mapping]
